@@ -260,6 +260,12 @@ def requests():
         array={"par": "radius", "values": [30.0, 38.5, 44.0, 51.25, 60.0], "weights": [0.7, 1.9, 3.3, 2.1, 0.6]})
     add("cylinder/sasview-array", model="cylinder", q=Q3, via="sasview", pars=cyl,
         array={"par": "length", "values": [250.0, 300.0, 333.0, 410.0], "weights": [1.0, 3.0, 3.0, 1.7]})
+    psv = {"radius": 40.0, "sld": 1.0, "sld_solvent": 6.0, "scale": 1.0, "background": 0.01, "volfraction": 0.2,
+           "radius_effective": 62.0}
+    add("sph@hs/sasview-mode1", model="sphere@hardsphere", q=Q3, via="sasview", pars=dict(psv, radius_effective_mode=1))
+    add("sph@hs/sasview-mode0", model="sphere@hardsphere", q=Q3, via="sasview", pars=dict(psv, radius_effective_mode=0))
+    add("sph@hs/sasview-mode1-parts", model="sphere@hardsphere", q=Q3, via="sasview", pars=dict(psv, radius_effective_mode=1),
+        composition_first=True)
     # answers in the subnormal range of double precision (below 2.2e-308)
     add("guinier/subnormal", model="guinier", q=[0.29, 0.30, 0.31], pars={"rg": 150.0, "scale": 1.0, "background": 0.0})
     add("sphere/tiny-scale", model="sphere", q=Q3, pars=dict(sph, scale=3e-312, background=0.0))
@@ -389,6 +395,10 @@ def evaluate(state, req, snapshots=None, keep=None):
                 Model = sasview_model.load_custom_model(plugin2_path())
             elif name == "CPLUGIN":
                 Model = sasview_model.load_custom_model(cplugin_path())
+            elif "@" in name:
+                pn_, sn_ = name.split("@")
+                Model = lambda: sasview_model.MultiplicationModel(sasview_model._make_standard_model(pn_)(),
+                                                                   sasview_model._make_standard_model(sn_)())
             else:
                 Model = sasview_model._make_standard_model(name)
             state.sasview[name] = Model()
@@ -416,6 +426,10 @@ def evaluate(state, req, snapshots=None, keep=None):
             disp = sasweights.ArrayDispersion()
             disp.set_weights(av, aw)
             m.set_dispersion(arr["par"], disp)
+        obj_before = (dict(m.params), copy.deepcopy(m.dispersion))
+        if req.get("composition_first"):
+            # the intermediate curves of a product are asked for first (what SasView does for its P(Q), S(Q) plots)
+            m.calc_composition_models(np.array(q, float))
         if isinstance(q[0], (list, tuple)):
             qa = [np.array(q[0], float), np.array(q[1], float)]
             qb = [a.copy() for a in qa]
@@ -428,6 +442,13 @@ def evaluate(state, req, snapshots=None, keep=None):
             res = m.evalDistribution(qa)
             if snapshots is not None:
                 snapshots.append(("q vector", qb.tolist(), qa.tolist()))
+        if snapshots is not None:
+            obj_after = (dict(m.params), copy.deepcopy(m.dispersion))
+            snapshots.append(("parameter values and dispersity settings held by the model object",
+                              [obj_before[0], {k_: {kk_: (vv_ if not isinstance(vv_, np.ndarray) else vv_.tolist()) for kk_, vv_ in v_.items()}
+                                                for k_, v_ in obj_before[1].items()}],
+                              [obj_after[0], {k_: {kk_: (vv_ if not isinstance(vv_, np.ndarray) else vv_.tolist()) for kk_, vv_ in v_.items()}
+                                              for k_, v_ in obj_after[1].items()}]))
         if arr and snapshots is not None:
             snapshots.append(("caller's distribution arrays", [a_before[0].tolist(), a_before[1].tolist()],
                               [av.tolist(), aw.tolist()]))
@@ -545,6 +566,8 @@ def gen_history(rng, reqs, h):
             ["eval", "cplug/sasview"], ["eval", "sphere/sasview-array"], ["eval", "sphere/sasview-array"],
             ["eval", "sphere/sasview"], ["eval", "sphere/sasview-array"], ["eval", "cylinder/sasview-array"],
             ["eval", "cylinder/sasview-array"]]
+    ops += [["eval", "sph@hs/sasview-mode1"], ["eval", "sph@hs/sasview-mode1-parts"], ["eval", "sph@hs/sasview-mode0"],
+            ["eval", "sph@hs/sasview-mode1-parts"], ["eval", "sph@hs/sasview-mode1"]]
     # someone in this process evaluates a model in single precision in between (sascomp -single!); requests whose
     # answers are subnormal doubles before and after it; the keyword helpers with the caller's own arrays
     ops += [["eval", "guinier/subnormal"], ["other_precision", ["sphere", "guinier", "cylinder"][h % 3]], ["eval", "guinier/subnormal"],
